@@ -6,6 +6,7 @@ package main
 import (
 	"encoding/json"
 	"fmt"
+	"math"
 	"sort"
 	"sync"
 
@@ -190,6 +191,9 @@ type searchCfg struct {
 	Pred  string `json:"predicate"`
 	Place string `json:"placement"` // none | preprune | prune | both
 	Inter bool   `json:"interleaved,omitempty"`
+	// Reent: the predicate callback itself drains another search (All(4,0,1)) and labels a graph before it answers -
+	// predicates are arbitrary functions, and a search used inside a callback of another search must not disturb it
+	Reent bool `json:"reentrant_predicate,omitempty"`
 }
 
 func pruneFn(p *hPred) func(g *graph.DenseGraph) bool {
@@ -198,15 +202,34 @@ func pruneFn(p *hPred) func(g *graph.DenseGraph) bool {
 
 func noPrune(g *graph.DenseGraph) bool { return false }
 
+func reentrant(f func(g *graph.DenseGraph) bool) func(g *graph.DenseGraph) bool {
+	return func(g *graph.DenseGraph) bool {
+		inner := search.WithPruning(4, 0, 1, noPrune, noPrune)
+		k := 0
+		for inner.Next() {
+			k += inner.Value().M()
+		}
+		_ = graph.CanonicalIsomorph(graph.Cycle(5))
+		if k != 33 { // the 11 graphs on 4 vertices have 33 edges in total
+			panic(fmt.Sprintf("inner search inside a predicate callback saw %d edges in total, want 33", k))
+		}
+		return f(g)
+	}
+}
+
 func makeIter(cfg searchCfg, a int) *search.GraphIterator {
 	p := predByName(cfg.Pred)
+	fn := pruneFn(p)
+	if cfg.Reent {
+		fn = reentrant(fn)
+	}
 	switch cfg.Place {
 	case "preprune":
-		return search.WithPruning(cfg.N, a, cfg.M, pruneFn(p), noPrune)
+		return search.WithPruning(cfg.N, a, cfg.M, fn, noPrune)
 	case "prune":
-		return search.WithPruning(cfg.N, a, cfg.M, noPrune, pruneFn(p))
+		return search.WithPruning(cfg.N, a, cfg.M, noPrune, fn)
 	case "both":
-		return search.WithPruning(cfg.N, a, cfg.M, pruneFn(p), pruneFn(p))
+		return search.WithPruning(cfg.N, a, cfg.M, fn, fn)
 	}
 	return search.All(cfg.N, a, cfg.M)
 }
@@ -248,7 +271,11 @@ func evalSearchCfg(cfg searchCfg) *Failure {
 	sw := getSweep(n)
 	p := predByName(cfg.Pred)
 	mk := func(cl, what string) *Failure {
-		return &Failure{Class: "search/" + cl, What: fmt.Sprintf("n=%d m=%d predicate %s as %s: %s", n, cfg.M, cfg.Pred, cfg.Place, what), Kind: "search-cfg", Replay: cfg}
+		re := ""
+		if cfg.Reent {
+			re = " (callback runs an inner search)"
+		}
+		return &Failure{Class: "search/" + cl, What: fmt.Sprintf("n=%d m=%d predicate %s as %s%s: %s", n, cfg.M, cfg.Pred, cfg.Place, re, what), Kind: "search-cfg", Replay: cfg}
 	}
 	want := map[int32]bool{}
 	for id, r := range sw.reps {
@@ -357,6 +384,13 @@ func c03Configs(maxN int) []searchCfg {
 					out = append(out, searchCfg{N: n, M: m, Pred: p.name, Place: pl})
 				}
 			}
+			if n <= 6 && m <= 2 {
+				for _, p := range hPreds[:4] { // none, triangle-free, K4-free, C4-subgraph-free
+					for _, pl := range []string{"preprune", "prune", "both"} {
+						out = append(out, searchCfg{N: n, M: m, Pred: p.name, Place: pl, Reent: true})
+					}
+				}
+			}
 		}
 	}
 	return out
@@ -424,6 +458,73 @@ func c03Counted(c *Ctx, n, m int) {
 	}
 }
 
+// split moduli near the top of the int range: shard a of m then receives exactly the a-th choice at the split
+// level, so the shards 0..255 together with m-1, m-2, m/2 must partition the classes (all but the first few are empty).
+type hugeMCase struct {
+	N int `json:"n"`
+	M int `json:"m"`
+}
+
+func evalHugeM(hc hugeMCase) *Failure {
+	n, m := hc.N, hc.M
+	sw := getSweep(n)
+	mk := func(cl, what string) *Failure {
+		return &Failure{Class: "search/huge-modulus/" + cl, What: fmt.Sprintf("n=%d m=%d: %s", n, m, what), Kind: "search-huge-m", Replay: hc}
+	}
+	shards := []int{}
+	for a := 0; a < 256; a++ {
+		shards = append(shards, a)
+	}
+	shards = append(shards, m/2, m/2+1, m-2, m-1)
+	seen := map[int32]int{}
+	lastNonEmpty := -1
+	var f *Failure
+	msg, pan := try(func() {
+		for _, a := range shards {
+			it := search.All(n, a, m)
+			cnt := 0
+			for it.Next() {
+				cnt++
+				mask, prob := valueMask(it, n)
+				if prob != "" {
+					f = mk("malformed-value", fmt.Sprintf("shard %d: %s", a, prob))
+					return
+				}
+				id := sw.class[mask]
+				if prev, dup := seen[id]; dup {
+					f = mk("class-yielded-by-two-shards", fmt.Sprintf("class of %s yielded by shard %d and shard %d", g6(n, mask), prev, a))
+					return
+				}
+				seen[id] = a
+				if cnt > len(sw.reps)+2 {
+					f = mk("shard-too-long", fmt.Sprintf("shard %d yields more graphs than there are classes", a))
+					return
+				}
+			}
+			if cnt > 0 && a < 256 {
+				lastNonEmpty = a
+			}
+			if cnt > 0 && a >= 256 {
+				f = mk("far-shard-not-empty", fmt.Sprintf("shard %d yields %d graphs although the split level has far fewer choices", a, cnt))
+				return
+			}
+		}
+	})
+	if pan {
+		return mk("panic", msg)
+	}
+	if f != nil {
+		return f
+	}
+	if lastNonEmpty >= 200 {
+		return nil // more choices at the split level than shards examined: completeness cannot be concluded here
+	}
+	if len(seen) != len(sw.reps) {
+		return mk("class-missing", fmt.Sprintf("shards 0..255, m/2, m/2+1, m-2, m-1 yield %d classes of %d", len(seen), len(sw.reps)))
+	}
+	return nil
+}
+
 func runC03(c *Ctx) {
 	c.Level = "exploration"
 	c.Rule = "every configuration (n<=7 (8 thorough), split modulus m in {1..7,64} with all shards a in [0,m), hereditary predicate in {triangle-free, K4-free, C4-free, claw-free, maxdeg<=2, maxdeg<=3, forest, bipartite, independence<=2} placed as preprune / prune / both, shards run sequentially or interleaved): every yielded value is a well-formed graph on n vertices, no isomorphism class (explicit orbit sweep, no canonical-form code) is yielded twice within or across shards, and the yielded classes are exactly those satisfying the predicate; all shards of n=9 (m=1,5) and n=10 (m=64) together: pairwise distinct canonical forms and the published number of graphs; non-trivial = configuration with n >= 4"
@@ -433,6 +534,22 @@ func runC03(c *Ctx) {
 	}
 	for n := 0; n <= maxN; n++ {
 		getSweep(n)
+	}
+	{
+		var hcs []hugeMCase
+		for n := 2; n <= 7; n++ {
+			for _, m := range []int{math.MaxInt64, math.MaxInt64 - 1, math.MaxInt64 - 2, 1 << 62, 1<<62 + 1, 1<<32 + 1, 1 << 32, 1<<31 - 1, 1000003} {
+				hcs = append(hcs, hugeMCase{n, m})
+			}
+		}
+		c.parFor(int64(len(hcs)), 1, func(lo, hi int64) {
+			for _, hc := range hcs[lo:hi] {
+				hc := hc
+				c.Check(func() *Failure { return evalHugeM(hc) })
+				c.Nontrivial(1)
+			}
+		})
+		c.SetCount("huge_modulus_cases", int64(len(hcs)))
 	}
 	cfgs := c03Configs(maxN)
 	var shards int64
@@ -467,6 +584,16 @@ func replayC03(kind string, raw json.RawMessage) *Failure {
 			return a.first
 		}
 		return nil
+	}
+	if kind == "search-huge-m" {
+		var hc hugeMCase
+		if err := json.Unmarshal(raw, &hc); err != nil {
+			return &Failure{Class: "replay/bad-file", What: err.Error()}
+		}
+		return evalHugeM(hc)
+	}
+	if kind != "search-cfg" {
+		return unsupportedKind(kind)
 	}
 	var cfg searchCfg
 	if err := json.Unmarshal(raw, &cfg); err != nil {
